@@ -45,11 +45,13 @@ SepText(s) == CASE s = "sp" -> " " [] s = "tab" -> "\t" [] OTHER -> "\n"
 
 \* clause texts over the fixed graph of the harness (Person{name,age}, City{name},
 \* KNOWS, index :Person(name), unique constraint City.name, hierarchy index hx).
-\* `bound`: a MATCH (n:Person) precedes, so a WITH can carry n along.
+\* `bound`: a clause binding n precedes (MATCH, or the first OPTIONAL MATCH), so a
+\* WITH can carry n along and SET / REMOVE / DELETE have something to work on.
 ClauseText(k, kc, bound) ==
     LET U == kc = "upper" IN
     CASE k = "MATCH"    -> IF U THEN "MATCH (n:Person)" ELSE "match (n:Person)"
-      [] k = "OPTMATCH" -> IF U THEN "OPTIONAL MATCH (m:City)" ELSE "optional match (m:City)"
+      [] k = "OPTMATCH" -> IF bound THEN (IF U THEN "OPTIONAL MATCH (m:City)" ELSE "optional match (m:City)")
+                                     ELSE (IF U THEN "OPTIONAL MATCH (n:Person)" ELSE "optional match (n:Person)")
       [] k = "UNWIND"   -> IF U THEN "UNWIND [1] AS u" ELSE "unwind [1] as u"
       [] k = "WITH"     -> IF bound THEN (IF U THEN "WITH n" ELSE "with n")
                                     ELSE (IF U THEN "WITH 1 AS w" ELSE "with 1 as w")
@@ -86,7 +88,7 @@ WellFormedStmt(st) ==
     /\ st.pre # <<>> \/ st.w # "none" \/ st.ret
 
 \* is n bound before clause i of cl ?
-BoundBefore(cl, i) == \E j \in 1..i - 1 : cl[j] = "MATCH"
+BoundBefore(cl, i) == \E j \in 1..i - 1 : cl[j] \in {"MATCH", "OPTMATCH"}
 
 StmtText(st) ==
     LET cl == Clauses(st)
